@@ -35,17 +35,18 @@ func hangAfter() time.Duration {
 // GuardProcess is the watchdog of a helper process that has no report (the cold-start children of the race pass): if the
 // process is still running after the hang interval, it prints where it is parked and exits - status 3 and a line
 // starting with COLD-CALL-NEVER-RETURNS when a goroutine is parked inside the library (the parent reports that as a
-// violation), status 4 and COLD-TOOL-ERROR otherwise.
+// violation); otherwise it keeps waiting.
 func GuardProcess() {
 	go func() {
-		time.Sleep(hangAfter() / 2)
+		for {
+			time.Sleep(hangAfter())
 
-		if fn, excerpt := blockedInLibrary(false); fn != "" {
-			fmt.Printf("COLD-CALL-NEVER-RETURNS %s: %s\n", fn, excerpt)
-			os.Exit(3)
-		} else {
-			fmt.Printf("COLD-TOOL-ERROR still running after %v, nothing parked inside the library: %s\n", hangAfter()/2, excerpt)
-			os.Exit(4)
+			// only a goroutine parked INSIDE the library ends the process; a helper that is merely slow on a busy
+			// machine keeps running
+			if fn, excerpt := blockedInLibrary(hangAfter() >= 90*time.Second); fn != "" {
+				fmt.Printf("COLD-CALL-NEVER-RETURNS %s: %s\n", fn, excerpt)
+				os.Exit(3)
+			}
 		}
 	}()
 }
